@@ -104,6 +104,11 @@ func runC18(w *W) {
 	so := tgenOpts{MaxStructs: 1 + t.Intn(4, "sch.structs"), MaxFields: 1 + t.Intn(8, "sch.fields"), MaxDepth: 1 + t.Intn(3, "sch.depth"),
 		BigIDs: t.Chance(1, 3, "sch.bigids"), ManyFields: t.Chance(1, 6, "sch.wide"), Aliases: t.Chance(1, 3, "sch.alias"),
 		Requiredness: t.Chance(1, 2, "sch.req"), Recursive: t.Chance(1, 3, "sch.rec"), Defaults: t.Chance(1, 4, "sch.defaults")}
+	// base64 binaries are the precondition of the open native finding F01 (decode past the output capacity): they
+	// are generated in 1/5 of the worlds only, and there every output buffer ends at an unmapped page
+	so.NoBinary = !t.Chance(1, 5, "sch.binary")
+	w.World.GuardGrowth = !so.NoBinary
+	w.worldFacts = map[string]string{"has_base64": fmt.Sprint(!so.NoBinary)}
 	sch := genSchema(t, so)
 	po := thrift.Options{UseDefaultValue: so.Defaults && t.Chance(1, 2, "parse.usedefault")}
 	opts, wo := drawConvOptsJ2T(w)
